@@ -186,7 +186,12 @@ class Frame:
         :
             Propagated frame.
         """
-        delta = distance.to(unit=self.distance.unit, copy=False) - self.distance
+        # Convert with a float dtype: an integer distance, e.g., in mm, would otherwise
+        # be rounded to a whole number of the frame's distance unit.
+        delta = (
+            distance.to(unit=self.distance.unit, dtype='float64', copy=False)
+            - self.distance
+        )
         subframes = [subframe.propagate_by(delta) for subframe in self.subframes]
         return Frame(distance=distance, subframes=subframes)
 
@@ -213,7 +218,10 @@ class Frame:
         :
             Chopped frame.
         """
-        distance = chopper.distance.to(unit=self.distance.unit, copy=False)
+        # float64 for the same reason as in propagate_to
+        distance = chopper.distance.to(
+            unit=self.distance.unit, dtype='float64', copy=False
+        )
         if distance < self.distance:
             raise ValueError(
                 f'Chopper distance {distance} is smaller than frame distance '
